@@ -93,7 +93,7 @@ Proof.
   assert (FG : forall s0 mk w, par (st (fst (fresh_grant s0 mk w))) = par (st s0)).
   { intros s0 mk w. unfold fresh_grant. destruct (fresh_rid s0) as [rid s1] eqn:E1. destruct (fresh_rid_spec _ _ _ E1) as [_ [_ [H1 _]]].
     rewrite GT. congruence. }
-  assert (RA : forall x X, par (revoke_access x X) = par x) by (intros x X; unfold revoke_access; destruct (at_idx x X); reflexivity).
+  assert (RA : forall x X, par (revoke_access x X) = par x) by (intros x X; reflexivity).
   assert (RR : forall x X, par (fst (revoke_refresh x X)) = par x)
     by (intros x X; unfold revoke_refresh; destruct (rt_idx x X) as [k0|]; [destruct (refresh x k0) as [[? ?]|]|]; reflexivity).
   assert (IC : forall x k0, par (fst (invalidate_code x k0)) = par x)
